@@ -170,8 +170,9 @@ pub fn run(opts: &Opts) -> i32 {
                         format!("legacy_checksum={}", rng.below(2)),
                         format!("path={src}"),
                         format!("seed={}", rng.next() % 1_000_000_007),
-                        format!("blocks={}", if big { 2600 } else { *rng.pick(&[48u64, 96, 160]) }),
+                        format!("blocks={}", if big { 4800 } else { *rng.pick(&[48u64, 96, 160]) }),
                         format!("prefixpairs={}", if big { 300 } else { 0 }),
+                        format!("bigvalue={}", (big && (sh + i) % 4 < 2) as u8),
                         format!("prefixextra={}", (sh + i) % 2),
                         format!("ttl={}", rng.below(2)),
                         format!("ops={}", if big { 700 } else { rng.range(10, 120) }),
